@@ -177,7 +177,7 @@ spec fn asm(p0: Seq<(Seq<char>, J)>, root: Seq<(Seq<char>, J)>, hk: Option<jsonw
 // what the issuer signs: the marked claims p0 (user claims without iss/iat/exp, with exactly the designated nodes
 // replaced by digests), then `_sd_alg`, the always-visible members in clear, and `cnf` only when a holder key is bound
 spec fn payload_of(p: Seq<(Seq<char>, J)>, u: Seq<(Seq<char>, J)>, s: Strat, hk: Option<jsonwebtoken::jwk::Jwk>) -> bool {
-    exists|p0: Seq<(Seq<char>, J)>| #![trigger asm(p0, only_root(u), hk)]
+    exists|p0: Seq<(Seq<char>, J)>| #![trigger j_insert(p0, K_SD_ALG(), J::Str("sha-256"@))]
         p == asm(p0, only_root(u), hk)
         && drop_sd_entries(p0) == strip_members(without_root(u), s, without_root(u).len())
         && !j_has(p0, K_DOTS()) && sd_list_ok(p0)
